@@ -510,6 +510,27 @@ fn answer(a: &[&str]) -> String {
             }
             format!("DUMP {}", out.join(";"))
         }
+        // apply_nested <action> <items in the stored sequence> <sequence tag> <primitive tag> <selector tag> <item index> <leaf tag> <u16 value>
+        //   -> "OK items=<n in the addressed sequence or -> attrs=<n>" | "ERR <error>"
+        "apply_nested" => {
+            use dicom_core::ops::{ApplyOp, AttributeAction, AttributeOp, AttributeSelector};
+            use dicom_core::value::{DataSetSequence, Value};
+            use dicom_core::{DataElement, VR};
+            use dicom_object::InMemDicomObject;
+            let tg = |x: &str| Tag(u16::from_str_radix(&x[..4], 16).unwrap(), u16::from_str_radix(&x[4..], 16).unwrap());
+            let n_items: usize = a[2].parse().unwrap();
+            let (seq_tag, prim_tag, sel_tag, leaf) = (tg(a[3]), tg(a[4]), tg(a[5]), tg(a[7]));
+            let idx: u32 = a[6].parse().unwrap();
+            let v: u16 = a[8].parse().unwrap();
+            let mut obj = InMemDicomObject::new_empty();
+            obj.put(DataElement::new(seq_tag, VR::SQ, DataSetSequence::from((0..n_items).map(|_| InMemDicomObject::new_empty()).collect::<Vec<_>>())));
+            obj.put(DataElement::new(prim_tag, VR::US, PrimitiveValue::U16([1u16].into_iter().collect())));
+            let pv = PrimitiveValue::U16([v].into_iter().collect());
+            let action = match a[1] { "Set" => AttributeAction::Set(pv), "Replace" => AttributeAction::Replace(pv), _ => AttributeAction::Remove };
+            let r = obj.apply(AttributeOp::new(AttributeSelector::from((sel_tag, idx, leaf)), action));
+            let items = match obj.get(sel_tag).map(|e| e.value()) { Some(Value::Sequence(sq)) => sq.items().len().to_string(), _ => "-".into() };
+            match r { Ok(()) => format!("OK items={} attrs={}", items, obj.iter().count()), Err(e) => format!("ERR {} items={} attrs={}", e, items, obj.iter().count()).replace(' ', "_").replacen('_', " ", 1) }
+        }
         // pdu_big <L>: write an A-ASSOCIATE-RQ holding one unknown user sub-item with L content bytes, then read the bytes back
         "pdu_big" => {
             use dicom_ul::pdu::{read_pdu, write_pdu, AssociationRQ, Pdu, PresentationContextProposed, UserVariableItem};
